@@ -2,6 +2,7 @@ package main
 
 import (
 	"fmt"
+	"math"
 	"os"
 	"os/exec"
 	"strings"
@@ -387,6 +388,54 @@ func runC03(in sx.SX) (sx.SX, string) {
 	}
 	calc.SetVariantOperations(newManager(safe))
 	res, err := calc.EvaluateUsingVariables(vars)
+	// the same values handed over the way a host program does - through the generic constructor, from the host's own
+	// number types (int32, uint32, uint, float32, ...): the evaluation ends the same way
+	{
+		vars2 := variables.NewVariableCollection()
+		for _, v := range vars.GetAll() {
+			val := v.Value()
+			switch val.Type() {
+			case variants.Integer:
+				if x := val.AsInteger(); int(int32(x)) == x {
+					val = variants.NewVariant(int32(x))
+				} else {
+					val = variants.NewVariant(x)
+				}
+			case variants.Long:
+				if x := val.AsLong(); x >= 0 && x <= math.MaxUint32 {
+					val = variants.NewVariant(uint32(x))
+				} else if x >= 0 {
+					val = variants.NewVariant(uint(x))
+				} else {
+					val = variants.NewVariant(x)
+				}
+			case variants.Float:
+				val = variants.NewVariant(val.AsFloat())
+			case variants.Double:
+				val = variants.NewVariant(val.AsDouble())
+			case variants.String:
+				val = variants.NewVariant(val.AsString())
+			case variants.Boolean:
+				val = variants.NewVariant(val.AsBoolean())
+			case variants.TimeSpan:
+				val = variants.NewVariant(val.AsTimeSpan())
+			case variants.DateTime:
+				val = variants.NewVariant(val.AsDateTime())
+			case variants.Array:
+				val = variants.NewVariant(val.AsArray())
+			}
+			vars2.Add(variables.NewVariable(v.Name(), val))
+		}
+		r2, e2 := calc.EvaluateUsingVariables(vars2)
+		o1, _ := resSX(res, err)
+		o2, _ := resSX(r2, e2)
+		if (r2 == nil) == (e2 == nil) {
+			return sx.L(sx.I(-995)), "with the variable values built by NewVariant from host values, Evaluate returned both or neither of a result and an error"
+		}
+		if (err == nil) != (e2 == nil) || (err == nil && sx.Text(o1) != sx.Text(o2)) {
+			return sx.L(sx.I(-995)), fmt.Sprintf("with the variable values built by NewVariant from host values of the same types, Evaluate gives %s (%v) instead of %s (%v)", sx.Text(o2), e2, sx.Text(o1), err)
+		}
+	}
 	// the same collection after variables were taken out of it, from the end and from the front, then put back: every
 	// evaluation still ends with exactly one of a result and an error (a panic is caught by the driver and reported)
 	again := func(what string) string {
